@@ -169,6 +169,8 @@ def gen_op(rng, rules, hook_rules, names, weights):
         return ['rm_prefix', rng.choice(PREFIXES)]
     if kind == 'hook':
         return ['hook', rng.choice(hook_rules), rng.randrange(N_HOOKS)]
+    if rng.random() < 0.04:
+        return ['unhook', rng.choice(PREFIXES)]      # hooks cannot be removed by wildcard: a rejected edit that must change nothing
     return ['unhook', rng.choice(hook_rules)]
 
 
